@@ -314,3 +314,39 @@ Proof.
   subst y. inversion Hnf as [|? ? Hn _]; subst. apply Hn. now left.
 Qed.
 End Buckets.
+
+(* ============================================================================================== *)
+(* 5. soundness: an answer (True, seq) carries a valid witness                                     *)
+(* ============================================================================================== *)
+Lemma sc_algo_some alts orders vo : sc_algo alts orders = Ok (Some vo) ->
+  Permutation orders vo /\ ordered_check vo = true.
+Proof.
+  destruct orders as [|v1 [|v2 rest]].
+  - simpl. intros H. injection H as <-. split; [constructor|reflexivity].
+  - simpl. intros H. injection H as <-. split; [apply Permutation_refl|reflexivity].
+  - unfold sc_algo. destruct (scan v1 v2 (ktd v1 v2) rest [(v2, Z.of_nat (ktd v1 v2))]) as [sc|]; [|discriminate].
+    cbv zeta. destruct (Nat.ltb (length (v1 :: v2 :: rest)) (length alts)).
+    + destruct (ordered_check (sort_by (lookup sc) (v1 :: v2 :: rest))) eqn:E; [|discriminate].
+      intros H. assert (Hv : sort_by (lookup sc) (v1 :: v2 :: rest) = vo) by congruence. rewrite <- Hv.
+      split; [apply sort_by_perm|exact E].
+    + destruct (bucket_phase (length alts) (lookup sc) (v1 :: v2 :: rest)) as [[vo'|]|e] eqn:Eb; try discriminate.
+      destruct (ordered_check vo') eqn:E; [|discriminate].
+      intros H. assert (Hv : vo' = vo) by congruence. rewrite <- Hv. split; [|exact E].
+      apply bucket_phase_inv in Eb. destruct Eb as [-> Hr]. apply Permutation_sym. now apply buckets_perm.
+Qed.
+
+Theorem sc_algo_sound alts orders vo : wf_profile alts orders ->
+  sc_algo alts orders = Ok (Some vo) -> sc_witness_check alts orders vo = true.
+Proof.
+  intros (Hna & Hno & Hwf) H. apply sc_algo_some in H. destruct H as [HP Hoc].
+  apply (sc_witness_check_perm alts orders vo Hno). split; [assumption|].
+  apply (ordered_check_correct alts vo Hna); [|assumption].
+  rewrite Forall_forall in *. intros o Ho. apply Hwf. eapply Permutation_in; [apply Permutation_sym; eassumption|assumption].
+Qed.
+
+Corollary sc_algo_sound_SC alts orders vo : wf_profile alts orders ->
+  sc_algo alts orders = Ok (Some vo) -> SC alts orders.
+Proof.
+  intros Hwf H. pose proof (sc_algo_sound alts orders vo Hwf H) as Hw.
+  destruct Hwf as (_ & Hno & _). eapply sc_witness_sound; eassumption.
+Qed.
